@@ -12,8 +12,12 @@ package staking
 //             the vote payload of (own hash, round, index); the payload's byte layout is proved from the code. PENDING (real defects, see
 //             /verif/proposed_fixes/C05, /verif/findings_proposed/C05.json): [distinct-hashes], [same-kind].
 //   clause 2  [first-time-this-block] at that call, [one-map-per-block] in processEvidences.
-//   clause 3  [configured-fraction] at that call; takePenalty (+ closures setActual $1, updateCounter $2): conservation, take bounds; doPenalize:
-//             expelled record stored, exactly the amount taken credited to PenaltyTo.
+//   clause 3  [configured-fraction] at that call; takePenalty (+ closures setActual $1, updateCounter $2): conservation, take bounds, and
+//             "never more than the amount handed in" ([taken-at-most-penalty]) proved on the body for every validator record — the plan is
+//             pinned to the property's figures ([obligation-within-penalty], [split-of-the-rest], [self-share], [share-of-entry],
+//             [plan-sums-to-penalty]), the takes stay within the planned shares ([taken-plus-planned], [owed-covers-plan]); relative to the
+//             structure of the record ([stake-is-sum-of-parts] …, assumed where the state hands the record out). doPenalize: expelled record
+//             stored, exactly the amount taken credited to PenaltyTo, [taken-at-most-penalty].
 //   clause 4  filing typestate in processDoubleSignV5, slashing / replaySlashing thin contracts. PENDING: [penalised-implies-confirmed].
 
 // Helpers that only build strings / hashes / log payloads.
@@ -87,6 +91,8 @@ package staking
 //@ ensures result != nil ==> c05Addr(result) == mainAddress
 //@ ensures result != nil ==> big(result.Token) >= 0
 //@ ensures result != nil ==> allocated(result) && allocated(result.Token) && allocated(result.Stake) && allocated(result.SelfToken) && allocated(result.SelfStake)
+// ASSUMED structure of the records the state hands out (see takePenalty):
+//@ ensures result != nil ==> c05StakeIsSumOfParts(result) && c05StakesNonNegative(result) && c05DelegatorsUnique(result) && c05EntriesDistinctAmounts(result)
 
 // Look-back validator set of the evidence's round: ASSUMED to return the set of that round (read-only).
 //@ func (*github.com/youchainhq/go-youchain/core.BlockChain).LookBackVldReaderForRound props C05
@@ -124,11 +130,9 @@ package staking
 //@ nobody
 //@ pure
 //@ ensures result == c05Queue(st) && result != nil && allocated(result)
-// (model of the queue: its records and their balances are existing objects)
-//@ ensures forall i: int :: { result.Records[i] } 0 <= i && i < len(result.Records) ==>
-//@     result.Records[i] != nil && allocated(result.Records[i]) && result.Records[i].FinalBalance != nil && allocated(result.Records[i].FinalBalance)
 
-// PartialCopy: a new record with four new, pairwise distinct amounts holding the same values; the Delegations slice is SHARED.
+// PartialCopy: a new record with four new, pairwise distinct amounts holding the same values; the copy owns a NEW delegation list of the same
+// length (make + copy: the entry objects are shared).
 //@ func (*github.com/youchainhq/go-youchain/core/state.Validator).PartialCopy props C05
 //@ nobody
 //@ modifies nothing
@@ -136,13 +140,22 @@ package staking
 //@ ensures result.Token != result.Stake && result.Token != result.SelfToken && result.Token != result.SelfStake &&
 //@     result.Stake != result.SelfToken && result.Stake != result.SelfStake && result.SelfToken != result.SelfStake
 //@ ensures big(result.Token) == big(v.Token) && big(result.Stake) == big(v.Stake) && big(result.SelfToken) == big(v.SelfToken) && big(result.SelfStake) == big(v.SelfStake)
-//@ ensures result.Delegations == v.Delegations && result.Status == v.Status && result.Expelled == v.Expelled && result.ExpelExpired == v.ExpelExpired &&
+//@ ensures len(result.Delegations) == len(v.Delegations) && off(result.Delegations) == 0 && (len(v.Delegations) > 0 ==> fresh(result.Delegations)) &&
+//@     (forall k: int :: { elems(result.Delegations)[k] } 0 <= k && k < len(v.Delegations) ==> elems(result.Delegations)[k] == elems(v.Delegations)[off(v.Delegations) + k])
+//@ ensures result.Status == v.Status && result.Expelled == v.Expelled && result.ExpelExpired == v.ExpelExpired &&
 //@     result.LastInactive == v.LastInactive && result.RiskObligation == v.RiskObligation && c05Addr(result) == c05Addr(v)
 
 //@ func (*github.com/youchainhq/go-youchain/core/state.WithdrawRecord).DeepCopy props C05
 //@ nobody
 //@ modifies nothing
 //@ ensures fresh(result)
+
+// (*DelegationFrom).DeepCopy: a new entry with two new amounts of equal value for the same delegator (C10/C08 verify the body: core/state/verif_contracts_c10.go).
+//@ func (*github.com/youchainhq/go-youchain/core/state.DelegationFrom).DeepCopy props C05
+//@ nobody
+//@ modifies nothing
+//@ ensures result != nil && fresh(result) && fresh(result.Stake) && fresh(result.Token) && result.Stake != result.Token
+//@ ensures result.Delegator == d.Delegator && big(result.Stake) == big(d.Stake) && big(result.Token) == big(d.Token)
 
 //@ func (*github.com/youchainhq/go-youchain/core/state.Validator).UpdateDelegationFrom props C05
 //@ nobody
@@ -184,37 +197,199 @@ package staking
 // Sum of what was taken out of unfinished withdraw records (in place).
 //@ ghost var c05Wd: int
 
+// The plan (first half of takePenalty) in the property's figures. c05StakePrefix(v, n): sum of the stakes of the first n delegations of
+// record v — "defined" for takePenalty's entry state by the (conservative) assumption [stake-prefix-def] below; c05Rest / c05Room / c05DlgPlan
+// accumulate, delegation by delegation, the stakes the plan loop has visited and the shares it has planned for them.
+//@ spec func c05StakePrefix(v: *state.Validator, n: int) int
+// Structure of a validator record, as far as the penalty split depends on it: the total stake is the sum of its parts, and no part is
+// negative — stated as "the prefix sums do not decrease" (with [stake-prefix-def] the same as "every delegation's Stake >= 0", but free of the
+// amounts heap: a caller hands the fact on without reasoning about the big.Int objects it has created since it looked the record up).
+//@ spec func c05EntriesNonNil(v: *state.Validator) bool =
+//@     forall k: int :: { elems(v.Delegations)[k] } off(v.Delegations) <= k && k < off(v.Delegations) + len(v.Delegations) ==>
+//@         c05AsDlg(elems(v.Delegations)[k]) != nil && c05AsDlg(elems(v.Delegations)[k]).Stake != nil && c05AsDlg(elems(v.Delegations)[k]).Token != nil
+// (quantifiers over the entries range over ABSOLUTE positions of the backing array — a pattern without arithmetic — and never have the prefix
+//  function as pattern: its recurrence would re-trigger itself, engine_requests/C05.md #13)
+//@ spec func c05AsDlg(p: *state.DelegationFrom) *state.DelegationFrom = p
+//@ spec func c05StakeIsSumOfParts(v: *state.Validator) bool = big(v.Stake) == big(v.SelfStake) + c05StakePrefix(v, len(v.Delegations))
+//@ spec func c05StakesNonNegative(v: *state.Validator) bool = big(v.Stake) >= 0 && big(v.SelfStake) >= 0 &&
+//@     (forall k: int :: { elems(v.Delegations)[k] } off(v.Delegations) <= k && k < off(v.Delegations) + len(v.Delegations) ==>
+//@         c05StakePrefix(v, k - off(v.Delegations)) <= c05StakePrefix(v, k - off(v.Delegations) + 1))
+// Every delegator is listed once — stated through a position function (c05PosOf(v, a): the index of a's entry in v's list; such a function
+// exists exactly when no delegator is listed twice): one bound variable and integer reasoning instead of pairwise inequality of addresses.
+//@ spec func c05PosOf(v: *state.Validator, a: common.Address) int
+//@ spec func c05DelegatorsUnique(v: *state.Validator) bool =
+//@     forall k: int :: { elems(v.Delegations)[k] } off(v.Delegations) <= k && k < off(v.Delegations) + len(v.Delegations) ==>
+//@         c05PosOf(v, c05AsDlg(elems(v.Delegations)[k]).Delegator) == k - off(v.Delegations)
+//@ spec func c05EntriesDistinctAmounts(v: *state.Validator) bool =
+//@     forall k: int :: { elems(v.Delegations)[k] } off(v.Delegations) <= k && k < off(v.Delegations) + len(v.Delegations) ==>
+//@         c05AsDlg(elems(v.Delegations)[k]).Token != c05AsDlg(elems(v.Delegations)[k]).Stake
+// c05Left[a]: what is left of delegator a's planned share (the value of the object dlgPenalty[a]; 0 for an address without share); c05DlgPlan
+// is the sum of all of them. Sums over a finite map (trusted arithmetic, assumed in takePenalty only — [finite-sums-…] below): c05NoShares()
+// is the all-zero map, c05Fin(l) "l differs from it at finitely many addresses", c05Sum(l) the sum of l's values.
+//@ ghost var c05Left: map[common.Address]int
+//@ spec func c05NoShares() map[common.Address]int
+//@ spec func c05Fin(l: map[common.Address]int) bool
+//@ spec func c05Sum(l: map[common.Address]int) int
+// Ghost copies of dlgPenalty's domain and values (the Go map's own address is an if-then-else term — the allocations of the obligation branch —
+// and the solver rejects every quantifier pattern that mentions it, engine_requests/C05.md #14), and allocation stamps around the plan loop:
+// exactly the big.Int objects allocated in between are share objects (values of dlgPenalty).
+//@ ghost var c05Dom: set[common.Address]
+//@ ghost var c05Vals: map[common.Address]*big.Int
+//@ ghost var c05Lo: int
+//@ ghost var c05Hi: int
+// The plan as numbers, taken when the validator's own share is complete: the products per*Stake and per*SelfStake; c05Rest, the stake of the
+// delegations the plan loop has not yet visited, and c05Room == per*c05Rest, what the split leaves for them. After that the arithmetic is
+// linear in these numbers (the solver is not asked to find per*(a+b) == per*a + per*b across different versions of the amounts heap).
+//@ ghost var c05PerStake: int
+//@ ghost var c05PerSelf: int
+//@ ghost var c05Rest: int
+//@ ghost var c05Room: int
+//@ ghost var c05Cap: int
+//@ ghost var c05Src: *big.Int
+//@ ghost var c05DlgPlan: int
+
 //@ func takePenalty props C05
 //@ requires [nonnil] val != nil && penaltyAmount != nil && val.Token != nil && val.Stake != nil && val.SelfToken != nil && val.SelfStake != nil && big(val.Stake) != 0
 //@ requires [owed] big(penaltyAmount) > 0
 //@ requires [fresh-amount] penaltyAmount != val.Token && penaltyAmount != val.Stake && penaltyAmount != val.SelfToken && penaltyAmount != val.SelfStake
-// BOUNDED (props/C05.json): the body is verified for a validator WITHOUT delegations. With delegations the per-delegator shares live in a
-// local map whose values are objects created by the first loop; the invariant "every value of dlgPenalty is such an object" (needed to exclude
-// aliasing with the counters) is not carried by the solver, and the map's heaps cannot be named in a frame (engine_requests/C05.md #6, #7).
-//@ assume [bounded-no-delegations] len(val.Delegations) == 0
-// … and WITHOUT unfinished withdraw records (the three obligations of the withdraw loop's take path — setActual's aliasing precondition, the
-// take bound and the preservation of [conservation] — time out although the facts they need are in the context; engine_requests/C05.md #8):
-//@ assume [bounded-no-pending-withdrawals] forall r: *state.WithdrawRecord :: { r.Finished } r.Finished != 0
+// Structure of a validator record (C08's inductive step UpdateDelegation keeps it; the summation itself is not mechanised there, so it is a
+// precondition here and an ASSUMED property of the records the state hands out, props/C05.json): the total stake is the sum of its parts,
+// and no part is negative.
+//@ requires [nonnil] c05EntriesNonNil(val)
+//@ requires [stake-is-sum-of-parts] c05StakeIsSumOfParts(val)
+//@ requires [stakes-non-negative] c05StakesNonNegative(val)
+// … every delegator is listed once (the list is kept sorted by UpdateDelegationFrom, C08 [sorted]), an entry's two amounts are two objects:
+//@ requires [delegators-unique] c05DelegatorsUnique(val)
+//@ requires [entries-distinct-amounts] c05EntriesDistinctAmounts(val)
+// (engine: the heaps of the delegation entries must be mentioned once OUTSIDE a quantifier, else their well-formedness axioms — "what an
+//  existing entry refers to existed on entry" — are never emitted: engine_requests/C05.md #12)
+//@ let c05e0 = val.Delegations[0]
+//@ let c05s0 = val.Delegations[0].Stake
+//@ let c05t0 = val.Delegations[0].Token
+//@ let c05b0 = c05Queue(currentDB).Records[0].FinalBalance
+// Definition of the prefix sums over the record's delegation list as it is on entry (conservative: such a function exists for every list).
+//@ assume [stake-prefix-def] c05StakePrefix(val, 0) == 0 &&
+//@     (forall k: int :: { elems(val.Delegations)[k] } off(val.Delegations) <= k && k < off(val.Delegations) + len(val.Delegations) ==>
+//@         c05StakePrefix(val, k - off(val.Delegations) + 1) == c05StakePrefix(val, k - off(val.Delegations)) + big(c05AsDlg(elems(val.Delegations)[k]).Stake))
+// Arithmetic of finite sums (TRUSTED, props/C05.json): the all-zero map sums to 0; changing one value of a finite map changes the sum by the
+// difference; a finite map without negative value has a non-negative sum. (c05Fin keeps the theory consistent: without it the last two
+// statements contradict each other on maps with infinitely many non-zero values.)
+//@ assume [finite-sums-zero] (forall a: common.Address :: { c05NoShares()[a] } c05NoShares()[a] == 0) && c05Fin(c05NoShares()) && c05Sum(c05NoShares()) == 0
+//@ assume [finite-sums-update] forall l: map[common.Address]int, a: common.Address, v: int :: { c05Sum(store(l, a, v)) } { c05Fin(store(l, a, v)) }
+//@     c05Fin(l) ==> c05Fin(store(l, a, v)) && c05Sum(store(l, a, v)) == c05Sum(l) - l[a] + v
+//@ assume [finite-sums-non-negative] forall l: map[common.Address]int :: { c05Sum(l) } c05Fin(l) && (forall a: common.Address :: l[a] >= 0) ==> c05Sum(l) >= 0
+// ASSUMED: the withdraw queue is an object that existed when takePenalty was entered (so did then, by the engine's heap well-formedness, its
+// record list, the records and their balances: none of them is an object created by takePenalty).
+//@ assume [withdraw-queue-preexists] allocated(c05Queue(currentDB))
 // ASSUMED: the amount still owed is the caller's own object (every caller builds it with new(big.Int)): no withdraw record holds it as balance.
-//@ assume [owed-amount-is-callers-object] forall r: *state.WithdrawRecord :: { r.FinalBalance } r.FinalBalance != penaltyAmount
-//@ modifies all, c05Wd
+//@ assume [owed-amount-is-callers-object] (forall r: *state.WithdrawRecord :: { r.FinalBalance } r.FinalBalance != penaltyAmount) &&
+//@     (forall e: *state.DelegationFrom :: { e.Token } e.Token != penaltyAmount) && (forall e: *state.DelegationFrom :: { e.Stake } e.Stake != penaltyAmount)
+//@ modifies all, c05Wd, c05Rest, c05Room, c05PerStake, c05PerSelf, c05DlgPlan, c05Cap, c05Src, c05Left, c05Dom, c05Vals, c05Lo, c05Hi
 // Only PENDING withdrawals are part of what a penalty may take: a record that was already paid out (Finished != 0, kept in the
 // queue for the retention period) is never debited. (Typestate assert at the only place a record is saved as a slash result.)
 //@ assert before call (*WithdrawRecord).DeepCopy: [only-pending-withdrawals-are-debited] record.Finished == 0
-//@ ghost after call (*Int).Sub#2: c05Wd := c05Wd + big(a2)
-//@ loop #1 invariant [locals] big(totalPenalty) == 0 && big(penaltyAmount) == old(big(penaltyAmount)) && c05Wd == old(c05Wd) && big(selfPenalty) == entry(big(selfPenalty))
-//@ loop #1 invariant [no-shares] forall a: common.Address :: { in(a, dlgPenalty) } !in(a, dlgPenalty)
-//@ loop #2 invariant [index] rangeindex >= -1
+// (anchors carry no call index where possible: an index counts calls in block order and moves when an unrelated branch is edited)
+//@ ghost after call takePenalty$2: c05Wd := if a1 == nil then c05Wd + big(a0) else c05Wd
+// --- the plan ---
+//@ ghost after call (*Int).Add#2: c05PerStake := big(per) * big(val.Stake)
+//@ ghost after call (*Int).Add#2: c05PerSelf := big(per) * big(val.SelfStake)
+//@ ghost after call (*Int).Add#2: c05Rest := big(val.Stake) - big(val.SelfStake)
+//@ ghost after call (*Int).Add#2: c05Room := big(per) * (big(val.Stake) - big(val.SelfStake))
+//@ ghost at entry: c05DlgPlan := 0
+//@ ghost before mapupdate#1: c05Rest := c05Rest - big(d.Stake)
+//@ ghost before mapupdate#1: c05Room := c05Room - big(value)
+//@ ghost before mapupdate#1: c05DlgPlan := c05DlgPlan - c05Left[key] + big(value)
+//@ ghost before mapupdate#1: c05Left := store(c05Left, key, big(value))
+//@ ghost after mapupdate#1: c05Dom := mapdom(dlgPenalty)
+//@ ghost after mapupdate#1: c05Vals := mapval(dlgPenalty)
+//@ ghost at entry: c05Left := c05NoShares()
+//@ ghost at entry: c05Dom := emptyset(common.Address)
+//@ ghost after call (*Int).QuoRem: c05Lo := alloc()
+//@ ghost before call (*StateDB).GetWithdrawQueue: c05Hi := alloc()
+// The validator's own obligation is a fraction of the penalty, the rest is split per unit of stake: per*Stake + rem == penalty - obligation.
+//@ assert after call (*Int).QuoRem: [obligation-within-penalty] 0 <= big(obligation) && big(obligation) <= old(big(penaltyAmount)) && big(currTotal) == old(big(penaltyAmount)) - big(obligation)
+//@ assert after call (*Int).QuoRem: [split-of-the-rest] big(ret0) * big(val.Stake) + big(ret1) == old(big(penaltyAmount)) - big(obligation) && big(ret0) >= 0 && big(ret1) >= 0
+//@ assert after call (*Int).Add#2: [self-share] big(selfPenalty) == big(per) * big(val.SelfStake) + big(rem) + big(obligation)
+//@ loop #1 invariant [plan-in-numbers] big(selfPenalty) == c05PerSelf + big(rem) + big(obligation) && c05PerStake + big(rem) == old(big(penaltyAmount)) - big(obligation) &&
+//@     big(rem) >= 0 && big(obligation) >= 0 && c05PerSelf >= 0
+//@ loop #1 invariant [index] -1 <= rangeindex && rangeindex < len(val.Delegations)
+//@ loop #1 invariant [locals] big(totalPenalty) == 0 && big(penaltyAmount) == old(big(penaltyAmount)) && c05Wd == old(c05Wd) && big(selfPenalty) == entry(big(selfPenalty)) &&
+//@     big(per) == entry(big(per)) && big(rem) == entry(big(rem)) && big(obligation) == entry(big(obligation)) &&
+//@     c05PerStake == entry(c05PerStake) && c05PerSelf == entry(c05PerSelf)
+//@ loop #1 invariant [record-kept] forall p: *big.Int :: { big(p) } old(allocated(p)) ==> big(p) == old(big(p))
+//@ loop #1 invariant [stakes-visited] c05Rest == big(val.Stake) - big(val.SelfStake) - c05StakePrefix(val, rangeindex + 1) && c05StakePrefix(val, rangeindex + 1) >= 0
+// (stepping stones; the index of the entry being visited is written the way the engine writes it — (rangeindex + 1 + 2^63) % 2^64 - 2^63 — so that the
+//  instance of [stake-prefix-def] is found by matching, not by arithmetic on `mod`)
+//@ assert before mapupdate#1: [index-of-entry] (rangeindex + 1 + 2^63) % 2^64 - 2^63 == rangeindex + 1
+//@ assert before mapupdate#1: [stake-of-entry] c05StakePrefix(val, ((rangeindex + 1 + 2^63) % 2^64 - 2^63) + 1) == c05StakePrefix(val, (rangeindex + 1 + 2^63) % 2^64 - 2^63) + big(d.Stake) && big(d.Stake) >= 0
+//@ assert before mapupdate#1: [share-of-entry] big(value) == big(per) * big(d.Stake) && big(per) >= 0 && big(value) >= 0
+//@ loop #1 invariant [shares-planned] c05DlgPlan + c05Room + c05PerSelf <= c05PerStake && c05Room == big(per) * c05Rest && big(per) >= 0
+//@ loop #1 invariant [plan-is-sum] c05DlgPlan == c05Sum(c05Left) && c05Fin(c05Left) && (forall a: common.Address :: { c05Left[a] } c05Left[a] >= 0)
+//@ loop #1 invariant [map-copy] c05Lo == entry(c05Lo) && mapdom(dlgPenalty) == c05Dom && (rangeindex >= 0 ==> mapval(dlgPenalty) == c05Vals)
+//@ loop #1 invariant [share-objects] forall a: common.Address :: { c05Vals[a] } in(a, c05Dom) ==> c05Vals[a] != nil && c05Lo <= c05Vals[a] && allocated(c05Vals[a]) && c05Vals[a] != selfPenalty
+//@ loop #1 invariant [shares-are-distinct-objects] forall a: common.Address, b: common.Address :: { c05Vals[a], c05Vals[b] }
+//@     in(a, c05Dom) && in(b, c05Dom) && a != b ==> c05Vals[a] != c05Vals[b]
+//@ loop #1 invariant [share-left] forall a: common.Address :: { c05Vals[a] } in(a, c05Dom) ==> big(c05Vals[a]) == c05Left[a]
+// (whole-set equality, not a quantifier over addresses: the map's address is an if-then-else term — the allocations of the obligation branch —
+//  and the solver rejects every pattern that mentions it, engine_requests/C05.md #14)
+//@ loop #1 invariant [no-shares-yet] rangeindex == -1 ==> c05Dom == emptyset(common.Address)
+// The planned shares add up to exactly the amount handed in (this is what makes "each take is within its share" a bound on the total).
+//@ assert before call (*StateDB).GetWithdrawQueue: [all-entries-visited] rangeindex + 1 == len(val.Delegations)
+//@ assert before call (*StateDB).GetWithdrawQueue: [all-stakes-visited] c05Rest == 0
+//@ assert before call (*StateDB).GetWithdrawQueue: [no-room-left] c05Room == 0
+//@ assert before call (*StateDB).GetWithdrawQueue: [delegator-shares] c05DlgPlan + c05PerSelf <= c05PerStake && c05DlgPlan >= 0
+//@ assert before call (*StateDB).GetWithdrawQueue: [plan-sums-to-penalty] big(selfPenalty) + c05DlgPlan <= old(big(penaltyAmount)) && big(selfPenalty) >= 0
+//@ assert after call (*StateDB).GetWithdrawQueue: [share-objects-range] forall a: common.Address :: { c05Vals[a] } in(a, c05Dom) ==> c05Vals[a] != nil && c05Lo <= c05Vals[a] && c05Vals[a] < c05Hi && c05Vals[a] != selfPenalty
+// --- the takes ---
+// (stepping stone: which share object the take came from, in terms of the ghost copy of the map)
+//@ assert before call (*WithdrawRecord).DeepCopy: [share-of-account] rest == selfPenalty || (in(record.Delegator, c05Dom) && rest == c05Vals[record.Delegator])
+//@ assert before call (*WithdrawRecord).DeepCopy: [share-after-take] rest == selfPenalty || (big(rest) == c05Left[record.Delegator] - big(fromWithdraw) && big(rest) >= 0)
+//@ ghost before call (*WithdrawRecord).DeepCopy: c05DlgPlan := if rest == selfPenalty then c05DlgPlan else c05DlgPlan - big(fromWithdraw)
+//@ ghost before call (*WithdrawRecord).DeepCopy: c05Left := if rest == selfPenalty then c05Left else store(c05Left, record.Delegator, c05Left[record.Delegator] - big(fromWithdraw))
+//@ ghost after call takePenalty$2: c05DlgPlan := if a1 != nil && a2 != a1.SelfToken then c05DlgPlan - big(a0) else c05DlgPlan
+//@ ghost after call takePenalty$2: c05Left := if a1 != nil && a2 != a1.SelfToken then store(c05Left, d.Delegator, c05Left[d.Delegator] - big(a0)) else c05Left
+//@ assert before call (*Validator).MainAddress#1: [index-of-record] (rangeindex + 1 + 2^63) % 2^64 - 2^63 == rangeindex + 1
+//@ loop #2 invariant [index] rangeindex >= -1 && rangeindex < len(withdrawQueue.Records)
+//@ loop #2 invariant [ghosts-kept] c05Lo == entry(c05Lo) && c05Hi == entry(c05Hi) && c05Dom == entry(c05Dom) && c05Vals == entry(c05Vals)
 //@ loop #2 invariant [conservation] big(totalPenalty) + big(penaltyAmount) == old(big(penaltyAmount))
 //@ loop #2 invariant [from-withdraw] big(totalPenalty) == c05Wd - old(c05Wd) && big(totalPenalty) >= 0
-//@ loop #3 invariant [conservation] big(totalPenalty) + big(penaltyAmount) == old(big(penaltyAmount)) && big(totalPenalty) >= 0 && len(updatedDFrom) == 0
+// (what was taken so far and what is still planned add up to at most the amount handed in: a withdraw take moves its amount from the plan to the total)
+//@ loop #2 invariant [taken-plus-planned] big(totalPenalty) + big(selfPenalty) + c05DlgPlan <= old(big(penaltyAmount)) && big(selfPenalty) >= 0
+//@ loop #2 invariant [plan-is-sum] c05DlgPlan == c05Sum(c05Left) && c05Fin(c05Left) && (forall a: common.Address :: { c05Left[a] } c05Left[a] >= 0)
+//@ loop #2 invariant [share-left] forall a: common.Address :: { c05Vals[a] } in(a, c05Dom) ==> big(c05Vals[a]) == c05Left[a]
+// The copy made for the stake takes lists the same entries: each delegator once.
+//@ assert after call (*Validator).PartialCopy: [copy-lists-each-delegator-once] c05EntriesDistinctAmounts(ret) &&
+//@     (forall k: int :: { elems(ret.Delegations)[k] } 0 <= k && k < len(ret.Delegations) ==> c05PosOf(val, c05AsDlg(elems(ret.Delegations)[k]).Delegator) == k)
+//@ assert before call (*Int).Sign#6: [index-of-delegation] (rangeindex + 1 + 2^63) % 2^64 - 2^63 == rangeindex + 1
+//@ loop #3 invariant [ghosts-kept] c05Lo == entry(c05Lo) && c05Hi == entry(c05Hi) && c05Dom == entry(c05Dom) && c05Vals == entry(c05Vals) && c05Wd == entry(c05Wd)
+//@ loop #3 invariant [list-kept] newVal.Delegations == entry(newVal.Delegations) && elems(newVal.Delegations) == entry(elems(newVal.Delegations)) && rangeindex >= -1 &&
+//@     rangeindex < len(newVal.Delegations) && (base(updatedDFrom) != base(newVal.Delegations) || len(newVal.Delegations) == 0)
+// (the body stores addresses — PenaltyRecord.Address — so the byte heap holding the entries' Delegator fields is cut at the loop head)
+//@ loop #3 invariant [each-delegator-once] forall k: int :: { elems(newVal.Delegations)[k] } 0 <= k && k < len(newVal.Delegations) ==>
+//@     c05PosOf(val, c05AsDlg(elems(newVal.Delegations)[k]).Delegator) == k
+//@ loop #3 invariant [conservation] big(totalPenalty) + big(penaltyAmount) == old(big(penaltyAmount)) && big(totalPenalty) >= 0
+// What is still owed covers everything the delegators' shares still allow to take.
+//@ loop #3 invariant [owed-covers-plan] big(penaltyAmount) >= c05DlgPlan
+//@ loop #3 invariant [plan-is-sum] c05DlgPlan == c05Sum(c05Left) && c05Fin(c05Left) && (forall a: common.Address :: { c05Left[a] } c05Left[a] >= 0)
+//@ loop #3 invariant [share-left-unvisited] forall k: int :: { elems(newVal.Delegations)[k] } rangeindex < k && k < len(newVal.Delegations) &&
+//@     in(c05AsDlg(elems(newVal.Delegations)[k]).Delegator, c05Dom) ==>
+//@         big(c05Vals[c05AsDlg(elems(newVal.Delegations)[k]).Delegator]) == c05Left[c05AsDlg(elems(newVal.Delegations)[k]).Delegator]
 //@ loop #4 invariant [conservation] big(totalPenalty) + big(penaltyAmount) == old(big(penaltyAmount)) && big(totalPenalty) >= 0
+//@ loop #4 invariant [taken-at-most-penalty] big(totalPenalty) <= old(big(penaltyAmount))
 // Every single take is positive, is covered by the balance it is taken from (no balance becomes negative) and by that account's remaining share.
-//@ assert before call takePenalty$2#1: [take-within-balance-and-share] big(a0) > 0 && big(record.FinalBalance) >= 0 && big(a0) <= big(rest)
-//@ assert before call takePenalty$2#2: [take-within-balance-and-share] big(a0) > 0 && big(a0) <= big(val.SelfToken) && big(a0) <= big(selfPenalty)
-//@ assert before call takePenalty$2#3: [take-within-balance-and-share] big(a0) > 0 && big(a0) <= big(d.Token) && big(a0) <= big(rest)
+// c05Cap / c05Src: the share and the balance handed to setActual for the take being made (set at every call of setActual).
+//@ ghost before call takePenalty$1: c05Cap := big(a1)
+//@ ghost before call takePenalty$1: c05Src := a0
+// The amounts a stake take writes (the copy's own amounts, the charged entry's amounts) are objects created by THIS call of takePenalty: the
+// entries of val.Delegations — shared with the record the journal keeps as the value to restore — are never written (the charged entry is a
+// DeepCopy; repair of the revert defect, /verif/proposed_fixes/C05/revert_after_penalty_observation.md).
+//@ assert before call takePenalty$2: [charged-entry-is-private] a1 != nil ==> !old(allocated(a2)) && !old(allocated(a3))
+//@ assert before call takePenalty$2: [take-within-balance-and-share] big(a0) > 0 && big(a0) <= c05Cap &&
+//@     (a1 == nil ==> big(c05Src) >= 0) && (a1 != nil ==> big(a0) <= big(c05Src))
 //@ ensures [conservation] big(totalPenalty) + big(penaltyAmount) == old(big(penaltyAmount))
 //@ ensures [taken-non-negative] big(totalPenalty) >= 0
+// "never takes more than the configured fraction": what was taken is at most the amount handed in (nothing is owed negatively).
+//@ ensures [taken-at-most-penalty] big(totalPenalty) <= old(big(penaltyAmount))
 //@ ensures [new-record] newVal != nil && fresh(newVal) && fresh(totalPenalty) && c05Addr(newVal) == c05Addr(val) && newVal.ExpelExpired == val.ExpelExpired
 
 // doPenalize: applies the penalty, expels the validator, stores the new record and credits exactly what was taken to the penalty account.
@@ -223,8 +398,14 @@ package staking
 //@ requires [nonnil] big(penaltyAmount) > 0 ==> big(val.Stake) != 0
 //@ requires [owed-non-negative] big(penaltyAmount) >= 0
 //@ requires [fresh-amount] penaltyAmount != val.Token && penaltyAmount != val.Stake && penaltyAmount != val.SelfToken && penaltyAmount != val.SelfStake
-//@ modifies all, c05Wd, c05Bal
+//@ requires [nonnil] c05EntriesNonNil(val)
+//@ requires [stake-is-sum-of-parts] c05StakeIsSumOfParts(val)
+//@ requires [stakes-non-negative] c05StakesNonNegative(val)
+//@ requires [delegators-unique] c05DelegatorsUnique(val)
+//@ requires [entries-distinct-amounts] c05EntriesDistinctAmounts(val)
+//@ modifies all, c05Wd, c05Rest, c05Room, c05PerStake, c05PerSelf, c05DlgPlan, c05Cap, c05Src, c05Left, c05Dom, c05Vals, c05Lo, c05Hi, c05Bal
 //@ ensures [taken-plus-owed] big(totalPenalty) + big(penaltyAmount) == old(big(penaltyAmount))
+//@ ensures [taken-at-most-penalty] big(totalPenalty) <= old(big(penaltyAmount))
 //@ assert before call (*StateDB).UpdateValidator: [expelled-record-stored] a2 == val && a1 != val && c05Addr(a1) == c05Addr(val) && a1.Expelled &&
 //@     a1.Status == params.ValidatorOffline && a1.ExpelExpired >= val.ExpelExpired
 //@ assert before call (*StateDB).AddBalance: [penalty-credited] a1 == config.PenaltyTo && a2 == totalPenalty
@@ -248,7 +429,7 @@ package staking
 // processEvidences from NewEvidence or RLP decoding (cache zero) or from the pending list (appended on paths that never Store). It cannot be
 // a checked precondition: the caller's loop loses the evidence array at every call (callee frame `all`).
 //@ assume [cache-empty] evidence.addr.v == nil
-//@ modifies all, c05E, c05Signs, c05R, c05I, c05Two, c05Listed, c05Distinct, c05SameKind, c05Accused, c05Calls, c05Wd, c05Bal
+//@ modifies all, c05E, c05Signs, c05R, c05I, c05Two, c05Listed, c05Distinct, c05SameKind, c05Accused, c05Calls, c05Wd, c05Rest, c05Room, c05PerStake, c05PerSelf, c05DlgPlan, c05Cap, c05Src, c05Left, c05Dom, c05Vals, c05Lo, c05Hi, c05Bal
 //@ loop #1 invariant [roundbuf] c05IsRoundBuf(roundbuf, doubleSign.Round, doubleSign.RoundIndex)
 //@ ghost before call (bls.PublicKey).Verify: c05E := info
 //@ ghost before call (bls.PublicKey).Verify: c05Signs := doubleSign.Signs
@@ -305,7 +486,7 @@ package staking
 // evidence was taken up, and is in it now) a validator is penalised at most once per block, provided nothing removes an address from the map:
 // processDoubleSignV5 contains no delete, and doPenalize does not receive the map (not machine-checked: its frame is `all`, see props/C05.json).
 //@ func (*Staking).processEvidences props C05
-//@ modifies all, c05E, c05Signs, c05R, c05I, c05Two, c05Listed, c05Distinct, c05SameKind, c05Accused, c05Calls, c05Wd, c05Bal
+//@ modifies all, c05E, c05Signs, c05R, c05I, c05Two, c05Listed, c05Distinct, c05SameKind, c05Accused, c05Calls, c05Wd, c05Rest, c05Room, c05PerStake, c05PerSelf, c05DlgPlan, c05Cap, c05Src, c05Left, c05Dom, c05Vals, c05Lo, c05Hi, c05Bal
 //@ assert before call (*Staking).processDoubleSignV5: [one-map-per-block] a8 == doubleSignedValidators && a7 == processResult && a5 == evidence && a1 == config && a2 == currentDB && a3 == header
 //@ assert before call (*Staking).processDoubleSignV5: [parent-height] a4 == big(parentHeight) || big(parentHeight) < 0 || big(parentHeight) >= 2^64
 //@ loop #1 invariant [penalties-only-for-listed-evidences] c05Calls - old(c05Calls) <= rangeindex + 1 && rangeindex >= -1
@@ -330,7 +511,7 @@ package staking
 // confirmed list.
 //@ ghost var c05Blob: []byte
 //@ func (*Staking).slashing props C05
-//@ modifies all, c05E, c05Signs, c05R, c05I, c05Two, c05Listed, c05Distinct, c05SameKind, c05Accused, c05Calls, c05Wd, c05Bal, c05Blob
+//@ modifies all, c05E, c05Signs, c05R, c05I, c05Two, c05Listed, c05Distinct, c05SameKind, c05Accused, c05Calls, c05Wd, c05Rest, c05Room, c05PerStake, c05PerSelf, c05DlgPlan, c05Cap, c05Src, c05Left, c05Dom, c05Vals, c05Lo, c05Hi, c05Bal, c05Blob
 //@ assert before call (*Staking).processEvidences: [this-blocks-state-and-header] a1 == ctx.config && a2 == ctx.db && a3 == ctx.header && a5 == ctx.receipt && len(a6) == len(s.evidences)
 //@ assert before call rlp.EncodeToBytes#1: [slash-data-encodes-the-confirmed-list] a0 == box(confirmedEvidences)
 //@ ghost after call rlp.EncodeToBytes#1: c05Blob := ret0
@@ -338,6 +519,6 @@ package staking
 
 // Validator: the evidences processed are the ones decoded from the header's slash data, against this block's state.
 //@ func (*Staking).replaySlashing props C05
-//@ modifies all, c05E, c05Signs, c05R, c05I, c05Two, c05Listed, c05Distinct, c05SameKind, c05Accused, c05Calls, c05Wd, c05Bal
+//@ modifies all, c05E, c05Signs, c05R, c05I, c05Two, c05Listed, c05Distinct, c05SameKind, c05Accused, c05Calls, c05Wd, c05Rest, c05Room, c05PerStake, c05PerSelf, c05DlgPlan, c05Cap, c05Src, c05Left, c05Dom, c05Vals, c05Lo, c05Hi, c05Bal
 //@ assert before call rlp.DecodeBytes#1: [decodes-the-headers-slash-data] a0 == ctx.header.SlashData
 //@ assert before call (*Staking).processEvidences: [replays-the-decoded-list] a6 == evidences && a1 == ctx.config && a2 == ctx.db && a3 == header && a5 == ctx.receipt
